@@ -4,11 +4,15 @@
 import os, sys, json, glob, shutil, subprocess, tempfile, time
 
 VERIF = os.path.dirname(os.path.dirname(os.path.abspath(__file__)))
+import re
+only = os.environ.get('SWEEP_ONLY')  # optional regex over the change names
 seeds = [int(x) for x in sys.argv[1:]] or [2]
 summary = {}
 for m in sorted(glob.glob(os.path.join(VERIF, 'seeded', '*', 'meta.json'))):
     d = json.load(open(m))
     name = d['name']
+    if only and not re.match(only, name):
+        continue
     patch = os.path.join(os.path.dirname(m), 'patch.diff')
     owners = [p for p, r in d.get('checks', {}).items() if r.startswith('CAUGHT')]
     if not owners:
